@@ -78,7 +78,7 @@ def main():
     os.makedirs(corpus, exist_ok=True)
     flush()
     atheris.Setup([sys.argv[0], "-runs=%d" % a.runs, "-seed=%d" % (a.seed or 1), "-max_len=8192", "-max_total_time=%d" % a.max_time,
-                   "-print_final_stats=0", "-verbosity=0", corpus], target.hypothesis.fuzz_one_input)
+                   "-print_final_stats=0", "-verbosity=0", "-artifact_prefix=" + os.path.join(a.out, ""), corpus], target.hypothesis.fuzz_one_input)
     atheris.Fuzz()
 
 
